@@ -165,7 +165,7 @@ def run_single(prop, seed, preset, want_case, schema_knobs=None, doc_knobs=None,
             # recorded deviation (known_findings.json): a selection whose @skip `if` is a null variable is
             # dropped instead of kept.  Only a response that equals, in every respect, the plan computed
             # with that one deviation is attributed to it; anything else is reported as it is.
-            alt_knobs = dict(plan_knobs or {}, skip_null_excludes=True)
+            alt_knobs = dict(plan_knobs or {}, skip_null_excludes=True, reuse_results=plan.results)
             alt = make_plan(case, Tape(seed, preset), faults, knobs=alt_knobs, base=getattr(plan, "base", None) or plan)
             if matches_deviation_plan(alt, out.resp, out.rt):
                 pv = [V("data_mismatch", "a selection carrying @skip(if: $v) with $v null (nullable variable with a default, explicit "
